@@ -63,6 +63,11 @@ TRUSTED_BASE = [
     "OAuth2 (token introspection server / self-encoded tokens) is NOT modelled and not exercised",
     "ETCD-mode basic auth runs on clustertest mocks (GetPrefix, Syncer.SyncPrefix); the real etcd syncer is C19's subject; "
     "each update is sent twice on the unbuffered channel so that the first is applied before the next request",
+    "jwt time: most cases run on a virtual jwt.TimeFunc (saved and restored, never reset to time.Now); real-clock cases leave jwt.TimeFunc alone, "
+    "record the clock before and after Handle and are re-issued until the reference verdict is the same at both ends",
+    "a share of the signature cases runs behind req.SetPath(req.Path()) or a real RequestAdaptor whose path rule does not apply; the expected "
+    "verdict and the model see the request as delivered by the server (before that filter)",
+    "instances with an oauth2.jwt section are only constructed (group x), never asked",
     "signature time checks use the real clock (signer.go calls time.Now): cases keep >= 20 s distance from every ttl/expiry boundary",
 ]
 ASSUMPTIONS = [
@@ -255,6 +260,8 @@ def _encode_x(i, o):
             break
         rec = dict(i["cases"][st["case"]])
         rec["cfg"] = cfgs[st["inst"]]
+        if rec["cfg"].get("oauth2"):
+            raise ValueError("a request was presented to an oauth2 instance: that method is not modelled")
         steps.append(_encode_v(rec, obs[k]))
         k += 1
     return Rec(x_steps=L(steps))
@@ -282,7 +289,7 @@ def _encode_v(i, o):
         raise ValueError("ttl %r: encoder parses %d ns, time.ParseDuration %r ns" % (i["cfg"]["sig"]["ttl"], _dur(i["cfg"]["sig"]["ttl"]), o.get("ttlNs")))
     ob = Rec(ob_invalid=B(res.get("res") == "invalid"), ob_other=B(res.get("res", "") not in ("", "invalid")),
              ob_status=Z(res.get("status", 0)), ob_by=N(res.get("by", 0)), ob_panic=B(res.get("panic", False)))
-    return Rec(v_cfg=_cfg(i["cfg"]), v_req=req, v_now=Z(o.get("nowNs", 0)), v_jnow=Z(i["jnow"]), v_tabs=_tables(o.get("tabs")),
+    return Rec(v_cfg=_cfg(i["cfg"]), v_req=req, v_now=Z(o.get("nowNs", 0)), v_jnow=Z(o.get("jnow") or i["jnow"]), v_tabs=_tables(o.get("tabs")),
                v_delivered=B(bool(o.get("delivered"))), v_obs=ob, v_expect=B(bool(o.get("expect"))), v_kind=N(i.get("kind", 0)))
 
 
